@@ -23,6 +23,7 @@ COMPILER_REPLAYS = {
     "u_link": ["replay/c13/link_error/run.sh"],
     "u_scope": ["replay/c05/run.sh"],
     "u_closenv": ["replay/c08/run.sh"],
+    "u_strlit": ["replay/c11/run.sh"],
 }
 
 
